@@ -77,6 +77,14 @@ MODULES = [
         dict(name='R-guard-if:prefix', kind='re', pat=r'Some\(\(k, _\)\) if k == next_prefix => cursor\.move_on_prev\(\),\n(\s*)_otherwise => Ok\(cursor\.current\(\)\),',
              rep=r'Some((k, _)) => { if k == next_prefix { cursor.move_on_prev() } else { Ok(cursor.current()) } }\n\1None => Ok(cursor.current()),'),
     ]),
+    dict(name='merge_function', file='merge_function.rs', header=HDR_IO, rewrites=[
+        dict(name='drop:Either', kind='drop_item', pat=r'^impl<MFA, MFB> MergeFunction for Either<MFA, MFB>', count=1),
+        dict(name='R-use:either', pat='use either::Either;\n', rep=''),
+    ]),
+    dict(name='merger', file='merger.rs', header=HDR_IO, rewrites=[
+        dict(name='R-closure-pat:k', pat='.map(|(k, _)| k)', rep='.map(|e: (&[u8], &[u8])| -> (r: &[u8]) ensures r@ == e.0@ { e.0 })', count=2),
+        dict(name='R-mutself', kind='mutself', fn='add', count=1),
+    ]),
     dict(name='varint', file='varint.rs', header=HDR, rewrites=[]),
     dict(name='block_writer', file='block_writer.rs', header=HDR, rewrites=[
         dict(name='R-assert-diverge', kind='assert_diverge', count='+'),
